@@ -82,6 +82,21 @@ impl Val {
     }
 }
 
+/// A row of recognisable values for `def` (probe statements of the crash and corruption engines).
+pub fn probe_row(def: &TableDef, salt: u64) -> Row {
+    def.cols
+        .iter()
+        .map(|c| match c.ty {
+            Ty::Int | Ty::BigInt | Ty::SmallInt => Val::Int(5000 + (salt % 50) as i64),
+            Ty::Varchar => Val::Str("probe".into()),
+            Ty::Bool => Val::Bool(true),
+            Ty::Double => Val::F(0.5),
+            Ty::Decimal => Val::Dec(12345),
+            Ty::Date => Val::Date("2031-07-09".into()),
+        })
+        .collect()
+}
+
 /// Text of a decimal given in hundredths, always with two fractional digits.
 pub fn dec_text(h: i64) -> String {
     let a = h.unsigned_abs();
